@@ -544,7 +544,7 @@ class Beam(_Simu):
             options.extend(["N", "Ty", "Tz", "Mx", "My", "Mz"])
             options.extend(["Sxx", "Syy", "Szz", "Syz", "Sxz", "Sxy"])
 
-        options.extend(["Srain", "Stress"])
+        options.extend(["Strain", "Stress"])
 
         return options
 
@@ -630,15 +630,29 @@ class Beam(_Simu):
         elif result in ["Sxx", "Syy", "Szz", "Syz", "Sxz", "Sxy"]:
             Epsilon_e_pg = self._Calc_Epsilon_e_pg(self.displacement)
             Sigma_e = self._Calc_Sigma_e_pg(Epsilon_e_pg).mean(1)
-            index = self._indexResult(result)
+            # components of the stress vector: 1D [Sxx], 2D [Sxx, Syy, Sxy], 3D [Sxx, Syy, Szz, Syz, Sxz, Sxy]
+            names = {
+                1: ["Sxx"],
+                2: ["Sxx", "Syy", "Sxy"],
+                3: ["Sxx", "Syy", "Szz", "Syz", "Sxz", "Sxy"],
+            }
+            index = names[self.structure.dim].index(result)
             values = Sigma_e[:, index]
 
+        elif result == "Strain":
+            values = np.asarray(self._Calc_Epsilon_e_pg(self.displacement).mean(1))
+
+        elif result == "Stress":
+            Epsilon_e_pg = self._Calc_Epsilon_e_pg(self.displacement)
+            values = np.asarray(self._Calc_Sigma_e_pg(Epsilon_e_pg).mean(1))
+
         elif result in ["ux'", "rx'", "ry'", "rz'"]:
-            coef = 1 if result == "Exx" else 1 / 2
+            # components of the beam strain vector: 1D [ux'], 2D [ux', rz'], 3D [ux', rx', ry', rz']
+            names = {1: ["ux'"], 2: ["ux'", "rz'"], 3: ["ux'", "rx'", "ry'", "rz'"]}
+            index = names[self.structure.dim].index(result)
 
             Epsilon_e = self._Calc_Epsilon_e_pg(self.displacement).mean(1)
-            index = self._indexResult(result)
-            values = Epsilon_e[:, index] * coef
+            values = Epsilon_e[:, index]
 
         else:
             Terminal.MyPrintError(f"The result '{result}' is not implemented yet.")
